@@ -79,7 +79,7 @@ var idFamilies = map[string][]string{
 
 var collPool = []int64{-1, -10, 1, 10, 100, 5}
 var chanPool = []string{"ch1", "ch10", "ch1_", "chX1", "ch%", "by-dev-dml_1", "by-dev-dml_10"}
-var msgPool = []string{"m1", "m10", "m1/x", "m_1", "mX1"}
+var msgPool = []string{"m1", "m10", "m1/x", "m100", "m_1", "mX1"}
 
 func pickDistinct(r *rand.Rand, pool []string, n int) []string {
 	idx := r.Perm(len(pool))
@@ -99,6 +99,13 @@ type genState struct {
 	info map[[2]string]bool            // tenant|task
 	pos  map[[2]string]map[int64]bool  // tenant|task -> colls
 	msg  map[[2]string]map[string]bool // tenant|task -> msgs
+	// channels written per (tenant, task, coll) and the records on which UpdateDropState was called
+	chans   map[[3]string][]string
+	dropped map[[3]string]bool
+}
+
+func tkc(t int, task string, coll int64) [3]string {
+	return [3]string{fmt.Sprint(t), task, fmt.Sprint(coll)}
 }
 
 func tk(t int, task string) [2]string { return [2]string{fmt.Sprint(t), task} }
@@ -171,14 +178,17 @@ func genCase(seed int64, backend string, idx int) *caseSpec {
 	if r.Intn(4) == 0 {
 		cs.Tasks = append(cs.Tasks, pickDistinct(r, idFamilies["plain"], 1)...)
 	}
-	nc := 2 + r.Intn(3)
-	perm := r.Perm(len(collPool))
-	for _, i := range perm[:nc] {
-		cs.Colls = append(cs.Colls, collPool[i])
+	// collections: a prefix-related pair first (1/10, 10/100, -1/-10), then random others
+	pair := [][]int64{{1, 10}, {10, 100}, {-1, -10}, {1, 100}}[r.Intn(4)]
+	cs.Colls = append(cs.Colls, pair...)
+	for _, i := range r.Perm(len(collPool))[:r.Intn(3)] {
+		if collPool[i] != pair[0] && collPool[i] != pair[1] {
+			cs.Colls = append(cs.Colls, collPool[i])
+		}
 	}
 	cs.Chans = pickDistinct(r, chanPool, 2+r.Intn(3))
 
-	g := &genState{info: map[[2]string]bool{}, pos: map[[2]string]map[int64]bool{}, msg: map[[2]string]map[string]bool{}}
+	g := &genState{info: map[[2]string]bool{}, pos: map[[2]string]map[int64]bool{}, msg: map[[2]string]map[string]bool{}, chans: map[[3]string][]string{}, dropped: map[[3]string]bool{}}
 	serial := int64(idx)*1000 + 1
 	next := func() int64 { serial++; return serial }
 	nT := len(cs.Roots)
@@ -195,7 +205,7 @@ func genCase(seed int64, backend string, idx int) *caseSpec {
 		case x < 4:
 			cs.Ops = append(cs.Ops, g.apply(op{Kind: "put_info", Tenant: t, Task: task, Serial: next(), State: r.Intn(3)}))
 		case x < 8:
-			cs.Ops = append(cs.Ops, g.apply(genUpdatePos(r, cs, t, task, cs.Colls[r.Intn(len(cs.Colls))], next())))
+			cs.Ops = append(cs.Ops, g.apply(genUpdatePos(r, cs, t, task, cs.Colls[r.Intn(2)], next())))
 		default:
 			cs.Ops = append(cs.Ops, g.apply(op{Kind: "repl_put", Tenant: t, Task: task, Msg: msgPool[r.Intn(len(msgPool))], Serial: next()}))
 		}
@@ -218,6 +228,41 @@ func genCase(seed int64, backend string, idx int) *caseSpec {
 			o.Serial = next()
 		}
 		cs.Ops = append(cs.Ops, g.apply(o))
+		// exact-id operations next to a longer sibling id: once a task holds m1 and m10 (or collections 1 and 10),
+		// address the shorter one
+		if len(cs.Ops) < total {
+			k := tk(o.Tenant, o.Task)
+			switch o.Kind {
+			case "repl_put":
+				var ids []string
+				for x := range g.msg[k] {
+					ids = append(ids, x)
+				}
+				if sh := withLongerSibling(ids); len(sh) > 0 && r.Intn(100) < 70 {
+					f := op{Kind: "repl_get_exact", Tenant: o.Tenant, Task: o.Task, Msg: sh[r.Intn(len(sh))], Serial: next()}
+					if r.Intn(4) == 0 {
+						f.Kind = "repl_remove"
+					}
+					cs.Ops = append(cs.Ops, g.apply(f))
+				}
+			case "mo_update_pos", "put_pos":
+				var ids []string
+				for c := range g.pos[k] {
+					ids = append(ids, fmt.Sprint(c))
+				}
+				if sh := withLongerSibling(ids); len(sh) > 0 && r.Intn(100) < 25 {
+					f := op{Kind: []string{"get_pos_task_coll", "get_pos_task_coll", "del_pos_task_coll", "mo_delete_pos", "mo_drop_state"}[r.Intn(5)], Tenant: o.Tenant, Task: o.Task, Serial: next()}
+					fmt.Sscan(sh[r.Intn(len(sh))], &f.Coll)
+					cs.Ops = append(cs.Ops, g.apply(f))
+				}
+			}
+		}
+		// the dropped-entry clause: right after marking a collection dropped, try to move one of its checkpoints
+		if kc := tkc(o.Tenant, o.Task, o.Coll); o.Kind == "mo_drop_state" && g.dropped[kc] && len(g.chans[kc]) > 0 && len(cs.Ops) < total && r.Intn(100) < 75 {
+			u := genUpdatePos(r, cs, o.Tenant, o.Task, o.Coll, next())
+			u.Chan = g.chans[kc][r.Intn(len(g.chans[kc]))]
+			cs.Ops = append(cs.Ops, g.apply(u))
+		}
 	}
 	// concurrent epilogue on disjoint task ids
 	if r.Intn(100) < 35 {
@@ -292,16 +337,37 @@ func (g *genState) apply(o op) op {
 			g.pos[k] = map[int64]bool{}
 		}
 		g.pos[k][o.Coll] = true
+		kc := tkc(o.Tenant, o.Task, o.Coll)
+		if o.Kind == "put_pos" {
+			g.chans[kc] = append([]string{}, o.Chans...)
+			delete(g.dropped, kc)
+		} else if !contains(g.chans[kc], o.Chan) {
+			g.chans[kc] = append(g.chans[kc], o.Chan)
+		}
+	case "mo_drop_state":
+		if o.Coll != 0 && g.pos[k][o.Coll] {
+			g.dropped[tkc(o.Tenant, o.Task, o.Coll)] = true
+		}
 	case "mo_update_pos_coll0":
 		if len(g.pos[k]) == 0 {
 			g.pos[k] = map[int64]bool{-1: true}
 		}
 	case "del_pos_task", "mo_delete_pos_coll0":
+		for c := range g.pos[k] {
+			delete(g.chans, tkc(o.Tenant, o.Task, c))
+			delete(g.dropped, tkc(o.Tenant, o.Task, c))
+		}
 		delete(g.pos, k)
 	case "del_pos_task_coll", "mo_delete_pos":
 		delete(g.pos[k], o.Coll)
+		delete(g.chans, tkc(o.Tenant, o.Task, o.Coll))
+		delete(g.dropped, tkc(o.Tenant, o.Task, o.Coll))
 	case "mo_delete_task":
 		if g.info[k] {
+			for c := range g.pos[k] {
+				delete(g.chans, tkc(o.Tenant, o.Task, c))
+				delete(g.dropped, tkc(o.Tenant, o.Task, c))
+			}
 			delete(g.info, k)
 			delete(g.pos, k)
 		}
@@ -372,6 +438,21 @@ func anyStr[V any](r *rand.Rand, m map[string]V) string {
 	return ks[r.Intn(len(ks))]
 }
 
+// withLongerSibling returns the ids of ids that are a proper prefix of another id of the set ("1" of {1,10}).
+func withLongerSibling(ids []string) []string {
+	var out []string
+	for _, x := range ids {
+		for _, y := range ids {
+			if x != y && strings.HasPrefix(y, x) {
+				out = append(out, x)
+				break
+			}
+		}
+	}
+	sort.Strings(out)
+	return out
+}
+
 func genOp(r *rand.Rand, cs *caseSpec, g *genState, next func() int64) op {
 	nT := len(cs.Roots)
 	kindName := opKinds[r.Intn(len(opKinds))]
@@ -380,6 +461,8 @@ func genOp(r *rand.Rand, cs *caseSpec, g *genState, next func() int64) op {
 		kindName = "mo_delete_task_fault"
 	} else if x < 14 {
 		kindName = "mo_delete_task"
+	} else if x < 20 {
+		kindName = "mo_drop_state"
 	}
 	o := op{Kind: kindName, Tenant: r.Intn(nT), Task: cs.Tasks[r.Intn(len(cs.Tasks))], Serial: next()}
 	pickExisting := func(what string, p int) {
@@ -394,6 +477,14 @@ func genOp(r *rand.Rand, cs *caseSpec, g *genState, next func() int64) op {
 		o.Coll = cs.Colls[r.Intn(len(cs.Colls))]
 		if m := g.pos[k()]; len(m) > 0 && r.Intn(100) < p {
 			o.Coll = anyKey(r, m)
+			// prefer the collection id that another one of the task extends (1 when 10 exists)
+			var ids []string
+			for c := range m {
+				ids = append(ids, fmt.Sprint(c))
+			}
+			if sh := withLongerSibling(ids); len(sh) > 0 && r.Intn(100) < 50 {
+				fmt.Sscan(sh[r.Intn(len(sh))], &o.Coll)
+			}
 		}
 	}
 	switch kindName {
@@ -429,6 +520,22 @@ func genOp(r *rand.Rand, cs *caseSpec, g *genState, next func() int64) op {
 		pickColl(75)
 		o.Chan = cs.Chans[r.Intn(len(cs.Chans))]
 		o.WithOp, o.WithTg = r.Intn(3) == 0, r.Intn(3) == 0
+		if len(g.dropped) > 0 && r.Intn(100) < 30 { // an entry of a dropped collection
+			var ks [][3]string
+			for kc := range g.dropped {
+				if len(g.chans[kc]) > 0 {
+					ks = append(ks, kc)
+				}
+			}
+			sort.Slice(ks, func(i, j int) bool { return fmt.Sprint(ks[i]) < fmt.Sprint(ks[j]) })
+			if len(ks) > 0 {
+				kc := ks[r.Intn(len(ks))]
+				fmt.Sscan(kc[0], &o.Tenant)
+				o.Task = kc[1]
+				fmt.Sscan(kc[2], &o.Coll)
+				o.Chan = g.chans[kc][r.Intn(len(g.chans[kc]))]
+			}
+		}
 	case "mo_update_pos_coll0":
 		pickExisting("pos", 50)
 		o.Chan = cs.Chans[r.Intn(len(cs.Chans))]
@@ -446,12 +553,33 @@ func genOp(r *rand.Rand, cs *caseSpec, g *genState, next func() int64) op {
 		}
 		o.FaultAfter = r.Intn(2) == 0
 	case "repl_put":
+		pickExisting("msg", 60) // several messages under one task (m1, m10, m1/x ...)
 		o.Msg = msgPool[r.Intn(len(msgPool))]
+		if m := g.msg[k()]; len(m) > 0 && r.Intn(100) < 60 {
+			// a message id that is prefix-related to one the task already has
+			have := anyStr(r, m)
+			var rel []string
+			for _, x := range msgPool {
+				if prefixRelated(x, have) {
+					rel = append(rel, x)
+				}
+			}
+			if len(rel) > 0 {
+				o.Msg = rel[r.Intn(len(rel))]
+			}
+		}
 	case "repl_get_exact", "repl_remove":
 		pickExisting("msg", 80)
 		o.Msg = msgPool[r.Intn(len(msgPool))]
 		if m := g.msg[k()]; len(m) > 0 && r.Intn(100) < 85 {
 			o.Msg = anyStr(r, m)
+			var ids []string
+			for x := range m {
+				ids = append(ids, x)
+			}
+			if sh := withLongerSibling(ids); len(sh) > 0 && r.Intn(100) < 60 {
+				o.Msg = sh[r.Intn(len(sh))]
+			}
 		}
 	}
 	return o
